@@ -1,7 +1,212 @@
 package main
 
-// Replay of solver models on the real code (drivers are added per unit; see replay_drivers.go).
+// Replay of solver models on the real code.
+//
+// A contract block may say:   //@ replay <driver> : <spec expr> ; <spec expr> ; ...
+// The expressions are evaluated in the function's ENTRY state. When an obligation of that unit is `sat`,
+// the query is re-run with (get-value ...) for those terms and the values are handed to the driver
+// /verif/replay/<driver>_test.go, which is injected into the function's package with `go test -overlay`
+// (nothing is written into /repo) and must print REPLAY-CONFIRMED if the real code violates the clause.
+
+import (
+	"bytes"
+	"encoding/json"
+	"fmt"
+	"os"
+	"os/exec"
+	"path/filepath"
+	"regexp"
+	"strings"
+	"time"
+)
+
+type replaySpec struct {
+	Driver string
+	Exprs  []string
+	Terms  []string
+	PkgDir string
+	PkgPath string
+}
+
+func (u *Unit) prepareReplay(st *State) {
+	f := u.ct.Flags["replay"]
+	if f == "" || u.quiet > 0 {
+		return
+	}
+	rs := &replaySpec{}
+	parts := strings.SplitN(f, ":", 2)
+	rs.Driver = strings.TrimSpace(parts[0])
+	if len(parts) > 1 {
+		for _, e := range strings.Split(parts[1], ";") {
+			e = strings.TrimSpace(e)
+			if e == "" {
+				continue
+			}
+			se, err := parseSpec(e)
+			if err != nil {
+				u.eng.specError("%s: replay expression %q: %v", u.name, e, err)
+				continue
+			}
+			env := &SpecEnv{names: u.entryParams, pkg: u.pkg, what: u.name + " replay"}
+			v, _ := u.evalSpec(st, se, env, false)
+			rs.Exprs = append(rs.Exprs, e)
+			rs.Terms = append(rs.Terms, u.scalar(st, v))
+		}
+	}
+	if u.pkg != nil && len(u.pkg.GoFiles) > 0 {
+		rs.PkgDir = filepath.Dir(u.pkg.GoFiles[0])
+		rs.PkgPath = u.pkg.PkgPath
+	}
+	u.replay = rs
+}
+
+var valueRe = regexp.MustCompile(`^\(\s*`)
+
+// parseGetValue parses "((t1 v1) (t2 v2) ...)" positionally into n values.
+func parseGetValue(out string, n int) []string {
+	i := strings.Index(out, "((")
+	if i < 0 {
+		return nil
+	}
+	s := out[i+1:]
+	var vals []string
+	for len(vals) < n {
+		s = strings.TrimLeft(s, " \n\t")
+		if !strings.HasPrefix(s, "(") {
+			break
+		}
+		// find matching paren of this pair
+		d, j := 0, 0
+		inq := false
+		for j = 0; j < len(s); j++ {
+			c := s[j]
+			if c == '"' {
+				inq = !inq
+			}
+			if inq {
+				continue
+			}
+			if c == '(' {
+				d++
+			} else if c == ')' {
+				d--
+				if d == 0 {
+					break
+				}
+			}
+		}
+		pair := s[1:j]
+		s = s[j+1:]
+		// the value is the last s-expression of the pair
+		pair = strings.TrimSpace(pair)
+		var val string
+		if strings.HasSuffix(pair, ")") {
+			d := 0
+			k := len(pair) - 1
+			for ; k >= 0; k-- {
+				if pair[k] == ')' {
+					d++
+				} else if pair[k] == '(' {
+					d--
+					if d == 0 {
+						break
+					}
+				}
+			}
+			val = pair[k:]
+		} else if strings.HasSuffix(pair, `"`) {
+			k := strings.LastIndex(pair[:len(pair)-1], `"`)
+			val = pair[k:]
+		} else {
+			k := strings.LastIndexAny(pair, " \n\t")
+			val = pair[k+1:]
+		}
+		vals = append(vals, smtValueToGo(val))
+	}
+	return vals
+}
+
+func smtValueToGo(v string) string {
+	v = strings.TrimSpace(v)
+	if strings.HasPrefix(v, "(- ") {
+		return "-" + strings.TrimSuffix(v[3:], ")")
+	}
+	if strings.HasPrefix(v, `"`) {
+		s := strings.Trim(v, `"`)
+		s = strings.ReplaceAll(s, `""`, `"`)
+		re := regexp.MustCompile(`\\u\{([0-9a-fA-F]+)\}`)
+		s = re.ReplaceAllStringFunc(s, func(m string) string {
+			var r rune
+			fmt.Sscanf(m[3:len(m)-1], "%x", &r)
+			return string(r)
+		})
+		return s
+	}
+	return v
+}
 
 func tryReplay(e *Engine, prop string, o *Obl) (bool, string) {
-	return false, ""
+	rs := o.Replay
+	if rs == nil || rs.Driver == "" {
+		return false, ""
+	}
+	drv := filepath.Join(verifDir, "replay", rs.Driver+"_test.go")
+	if _, err := os.Stat(drv); err != nil {
+		return false, "replay driver missing: " + drv
+	}
+	// re-run with get-value
+	args := map[string]string{}
+	if len(rs.Terms) > 0 {
+		// prefer a model in which the clock stands still during the call (replayable on a real clock)
+		var still []string
+		for name := range o.D.set {
+			if strings.HasPrefix(name, "now!") {
+				still = append(still, "(assert (= "+name+" |now@0|))")
+			}
+		}
+		f := filepath.Join(e.outDir, "smt", sanitizeFile(o.Name)+".replay.smt2")
+		var out []byte
+	attempts:
+		for _, extra := range []string{strings.Join(still, "\n"), ""} {
+			q := preamble + o.query() + "\n" + extra + "\n(check-sat)\n(get-value (" + strings.Join(rs.Terms, " ") + "))\n"
+			os.WriteFile(f, []byte(q), 0o644)
+			for _, solver := range []string{"z3-new", "z3"} {
+				out, _ = exec.Command(solver, "-T:20", f).CombinedOutput()
+				if strings.HasPrefix(strings.TrimSpace(string(out)), "sat") {
+					break attempts
+				}
+			}
+		}
+		vals := parseGetValue(string(out), len(rs.Terms))
+		if len(vals) != len(rs.Terms) {
+			return false, "could not obtain model values: " + trunc(string(out), 500)
+		}
+		for i, ex := range rs.Exprs {
+			args[ex] = vals[i]
+		}
+	}
+	args["__obligation"] = o.Name
+	args["__clause"] = o.Text
+	aj, _ := json.Marshal(args)
+	ov := map[string]map[string]string{"Replace": {filepath.Join(rs.PkgDir, "zz_govc_replay_test.go"): drv}}
+	ovj, _ := json.Marshal(ov)
+	tmp, _ := os.MkdirTemp("", "govc-replay")
+	defer os.RemoveAll(tmp)
+	ovf := filepath.Join(tmp, "overlay.json")
+	os.WriteFile(ovf, ovj, 0o644)
+	rel, _ := filepath.Rel(repoDir(), rs.PkgDir)
+	cmd := exec.Command("go", "test", "-overlay", ovf, "-vet=off", "-count=1", "-timeout", "60s", "-v", "-run", "TestGovcReplay", "./"+rel)
+	cmd.Dir = repoDir()
+	cmd.Env = append(os.Environ(), "GOVC_REPLAY_ARGS="+string(aj), "GOFLAGS=-mod=mod")
+	var buf bytes.Buffer
+	cmd.Stdout, cmd.Stderr = &buf, &buf
+	done := make(chan struct{})
+	go func() { cmd.Run(); close(done) }()
+	select {
+	case <-done:
+	case <-time.After(120 * time.Second):
+		cmd.Process.Kill()
+	}
+	out := "args: " + string(aj) + "\n" + buf.String()
+	return strings.Contains(buf.String(), "REPLAY-CONFIRMED"), out
 }
